@@ -30,6 +30,8 @@ structure Mono (env : Env) (n : Nat) : Prop where
   condLoop : ∀ cs els st, Le (condLoop env n cs els st) (condLoop env (n + 1) cs els st)
   inIter : ∀ sv o body i st, Le (inIter env n sv o body i st) (inIter env (n + 1) sv o body i st)
   inLoop : ∀ sv o body i st, Le (inLoop env n sv o body i st) (inLoop env (n + 1) sv o body i st)
+  inLoopB : ∀ sv o w body i st, Le (inLoopB env n sv o w body i st) (inLoopB env (n + 1) sv o w body i st)
+  inBatch : ∀ sv o bp w body els cache st, Le (inBatch env n sv o bp w body els cache st) (inBatch env (n + 1) sv o bp w body els cache st)
   raiseClass : ∀ cls e st, LeO (raiseClass env n cls e st) (raiseClass env (n + 1) cls e st)
   renderBlk : ∀ b st, Le (renderBlk env n b st) (renderBlk env (n + 1) b st)
   letLoop : ∀ binds body st, Le (letLoop env n binds body st) (letLoop env (n + 1) binds body st)
@@ -47,6 +49,8 @@ theorem mono_zero (env : Env) : Mono env 0 where
   condLoop := fun cs els st => by rw [show Render.condLoop env 0 cs els st = (.oom, st) by unfold Render.condLoop; rfl]; exact Or.inl rfl
   inIter := fun sv o body i st => by rw [show Render.inIter env 0 sv o body i st = (.oom, st) by unfold Render.inIter; rfl]; exact Or.inl rfl
   inLoop := fun sv o body i st => by rw [show Render.inLoop env 0 sv o body i st = (.oom, st) by unfold Render.inLoop; rfl]; exact Or.inl rfl
+  inLoopB := fun sv o w body i st => by rw [show Render.inLoopB env 0 sv o w body i st = (.oom, st) by unfold Render.inLoopB; rfl]; exact Or.inl rfl
+  inBatch := fun sv o bp w body els cache st => by rw [show Render.inBatch env 0 sv o bp w body els cache st = (.oom, st) by unfold Render.inBatch; rfl]; exact Or.inl rfl
   raiseClass := fun cls e st => by rw [show Render.raiseClass env 0 cls e st = (none, st) by unfold Render.raiseClass; rfl]; exact Or.inl rfl
   renderBlk := fun b st => by rw [show Render.renderBlk env 0 b st = (.oom, st) by unfold Render.renderBlk; rfl]; exact Or.inl rfl
   letLoop := fun binds body st => by rw [show Render.letLoop env 0 binds body st = (.oom, st) by unfold Render.letLoop; rfl]; exact Or.inl rfl
@@ -324,6 +328,83 @@ theorem inLoop_step (env : Env) (n : Nat) (ih : Mono env n) (sv : SeqVars) (o : 
       · exact Le.refl _
     · exact loopTail env n ih _ o body i _
 
+/-- the same for a batched loop: render element `i`, then go on with the updated variables -/
+theorem loopTailB (env : Env) (n : Nat) (ih : Mono env n) (sv' sv'' : SeqVars) (o : InOpts) (w : BWin) (body : List Blk)
+    (i : Nat) (st1 : St) :
+    Le (match inIter env n sv' o body i st1 with
+        | (.ok p, st2) =>
+          (match inLoopB env n sv'' o w body (i + 1) st2 with
+           | (.ok ps, st3) => ((.ok (p :: ps) : Res (List Piece)), st3)
+           | r => r)
+        | (.raise e, st2) => (.raise e, st2)
+        | (.ret v, st2) => (.ret v, st2)
+        | (.oom, st2) => (.oom, st2))
+       (match inIter env (n + 1) sv' o body i st1 with
+        | (.ok p, st2) =>
+          (match inLoopB env (n + 1) sv'' o w body (i + 1) st2 with
+           | (.ok ps, st3) => ((.ok (p :: ps) : Res (List Piece)), st3)
+           | r => r)
+        | (.raise e, st2) => (.raise e, st2)
+        | (.ret v, st2) => (.ret v, st2)
+        | (.oom, st2) => (.oom, st2)) := by
+  rcases ih.inIter sv' o body i st1 with h | h
+  · oom_case h
+  · rw [← h]
+    generalize inIter env n sv' o body i st1 = x
+    obtain ⟨r, st2⟩ := x
+    cases r with
+    | ok p =>
+      simp only
+      rcases ih.inLoopB sv'' o w body (i + 1) st2 with h2 | h2
+      · oom_case h2
+      · rw [← h2]; exact Le.refl _
+    | raise e => exact Le.refl _
+    | ret v => exact Le.refl _
+    | oom => exact Le.refl _
+
+theorem inLoopB_step (env : Env) (n : Nat) (ih : Mono env n) (sv : SeqVars) (o : InOpts) (w : BWin) (body : List Blk)
+    (i : Nat) (st : St) :
+    Le (inLoopB env (n + 1) sv o w body i st) (inLoopB env (n + 2) sv o w body i st) := by
+  rw [inLoopB, inLoopB]
+  split
+  · exact Le.refl _
+  · generalize (if env.guardOn = true then { st with trace := st.trace ++ [Event.gitem 0 ↑i] } else st) = st0
+    simp only
+    split
+    · split
+      · exact ih.inLoopB _ _ _ _ _ _
+      · exact Le.refl _
+    · exact loopTailB env n ih _ _ o w body i _
+
+/-- the result of a batched rendering follows the result of its inner rendering -/
+theorem dropRes_le {a b : Res Piece × St} (k : Nat) (h : Le a b) :
+    Le (a.1, { a.2 with stack := a.2.stack.drop k }) (b.1, { b.2 with stack := b.2.stack.drop k }) := by
+  rcases h with h | h
+  · exact Or.inl h
+  · rw [h]; exact Le.refl _
+
+theorem inBatch_step (env : Env) (n : Nat) (ih : Mono env n) (sv0 : SeqVars) (o : InOpts) (bp : BatchP) (w : BWin)
+    (body : List Blk) (els : Option (List Blk)) (cache : List Frame) (st : St) :
+    Le (inBatch env (n + 1) sv0 o bp w body els cache st) (inBatch env (n + 2) sv0 o bp w body els cache st) := by
+  unfold inBatch
+  dsimp only
+  apply dropRes_le
+  split
+  · split
+    · exact ih.renderJoined _ _
+    · cases els with
+      | some e => exact ih.renderJoined _ _
+      | none => exact Le.refl _
+  · split
+    · split
+      · exact ih.renderJoined _ _
+      · cases els with
+        | some e => exact ih.renderJoined _ _
+        | none => exact Le.refl _
+    · rcases ih.inLoopB sv0 o w body w.first { st with stack := (Frame.seq sv0 :: cache) ++ st.stack } with h | h
+      · oom_case h
+      · rw [← h]; exact Le.refl _
+
 theorem raiseClass_step (env : Env) (n : Nat) (ih : Mono env n) (cls : Text) (e : Option Expr) (st : St) :
     LeO (raiseClass env (n + 1) cls e st) (raiseClass env (n + 2) cls e st) := by
   simp only [raiseClass]
@@ -528,6 +609,53 @@ theorem renderBlk_step (env : Env) (n : Nat) (ih : Mono env n) (b : Blk) (st : S
           · oom_case h2
           · rw [← h2]; exact Le.refl _
 
+  | inx_ src o x body els =>
+    unfold renderBlk
+    try simp only
+    rcases ih.evalSrc src st with h | h
+    · oom_case h
+    · rw [← h]
+      generalize evalSrc env n src st = x'
+      obtain ⟨r, st'⟩ := x'
+      cases r with
+      | oom => exact Le.refl _
+      | ret v => exact Le.refl _
+      | raise e => exact Le.refl _
+      | ok v =>
+        simp only
+        split
+        · exact Le.refl _
+        · split
+          · exact oneRes_le (ih.renderJoined _ _)
+          · exact Le.refl _
+        · rename_i xs _ _
+          generalize arrange env o x xs st' = ra
+          obtain ⟨r1, st1⟩ := ra
+          cases r1 with
+          | oom => exact Le.refl _
+          | ret v => exact Le.refl _
+          | raise e => exact Le.refl _
+          | ok ys =>
+            simp only
+            cases x.batch with
+            | none =>
+              simp only
+              rcases ih.inLoop { items := ys, mapping := o.mapping, prefix_ := o.prefix_ } o body 0 _ with h2 | h2
+              · oom_case h2
+              · rw [← h2]; exact Le.refl _
+            | some bp =>
+              simp only
+              rcases ih.getitem (txt "QUERY_STRING") true st1 with hq | hq
+              · oom_case hq
+              · rw [← hq]
+                generalize getitem env n (txt "QUERY_STRING") true st1 = rq
+                obtain ⟨q, st2⟩ := rq
+                cases q with
+                | oom => exact Le.refl _
+                | ok _ => exact oneRes_le (ih.inBatch _ _ _ _ _ _ _ _)
+                | raise _ => exact oneRes_le (ih.inBatch _ _ _ _ _ _ _ _)
+                | ret _ => exact oneRes_le (ih.inBatch _ _ _ _ _ _ _ _)
+
 
 /-- **Fuel monotonicity**: for every function of the interpreter and every fuel, one more unit of
 fuel gives the same outcome unless the evaluation had run out of fuel -/
@@ -549,6 +677,8 @@ theorem mono_all (env : Env) : ∀ n, Mono env n := by
       condLoop := condLoop_step env n ih
       inIter := inIter_step env n ih
       inLoop := inLoop_step env n ih
+      inLoopB := inLoopB_step env n ih
+      inBatch := inBatch_step env n ih
       raiseClass := raiseClass_step env n ih
       renderBlk := renderBlk_step env n ih
       letLoop := letLoop_step env n ih }
